@@ -93,8 +93,13 @@ def check_c08(tier, seed):
                         pass
                 elif k == "backward":
                     if results:
-                        results[-1].backward()
                         cleared = True
+                        try:
+                            results[-1].backward()
+                        except InvalidBackprop:
+                            # back-propagating through a graph that an earlier statement partly cleared must fail loudly (C09);
+                            # it is a failed operation: the lock contract at quiescence still applies
+                            pass
                 elif k == "clear":
                     if results:
                         results[0].clear_graph()
